@@ -79,6 +79,10 @@ func main() {
 	}
 	if rec.Command == "ADD" {
 		ip := resultIP(network)
+		// a case may pin the address reported for a container
+		if b, err := os.ReadFile(filepath.Join(dir, "ip", rec.ContainerID)); err == nil && len(b) > 0 {
+			ip = string(b)
+		}
 		fmt.Printf(`{"cniVersion":"0.2.0","ip4":{"ip":"%s/24","gateway":"10.0.0.1","routes":[{"dst":"0.0.0.0/0"}]},"dns":{}}`, ip)
 	}
 }
